@@ -146,9 +146,11 @@ func raceSignature(rep string) (string, bool) {
 		var fr []string
 		for _, m := range frameRe.FindAllStringSubmatch(s+"\n", -1) {
 			fn := m[1]
-			fr = append(fr, fn)
 			if strings.Contains(fn, "github.com/paulmach/osm") {
 				lib = true
+				fr = append(fr, fn) // the key names library frames only, so harness refactors do not change it
+			} else if !lib && len(fr) == 0 {
+				fr = append(fr, fn)
 			}
 		}
 		if len(fr) > 6 {
